@@ -2,6 +2,7 @@
 Props/C26 — yq results do not depend on the input's syntax.  Property theorems only.
 -/
 import SuccinctlyVerif.Proof.YamlRoundTrip
+import SuccinctlyVerif.Proof.YamlRefDocs
 namespace SV.Props.C26
 open SV SV.YamlRef
 
@@ -11,9 +12,20 @@ def json_yaml_same_tree_full_statement : Prop :=
   ∀ (s : PStream) (t : Tree), admissible s = true → s.trees = [t] →
     loadRef (render s) = .ok [t] ∧ readJson (toJson t) = some t
 
-/-- Partial: the YAML side for the flow / double-quoted layer (C14 layer 1, under every line-break
-convention).  Missing: the block layers (evaluated by the driver on every request instead) and the
-JSON reader's round trip `readJson (toJson t) = some t` (evaluated per request). -/
+/-- The YAML side, for EVERY admissible rendering (C14 `render_load`): the block and the flow YAML
+inputs of a request denote the tree they were rendered from.  Missing for the full statement: the JSON
+reader's round trip `readJson (toJson t) = some t` (evaluated per request by the driver). -/
+theorem yaml_renderings_same_tree (s : PStream) (t : Tree) (ha : admissible s = true) (ht : s.trees = [t]) :
+    loadRef (render s) = .ok [t] := by
+  rw [loadRef_render, loadChars_admissible s ha, ht]
+
+/-- Two admissible renderings of the same trees load to the same result. -/
+theorem yaml_syntax_irrelevant (a b : PStream) (ha : admissible a = true) (hb : admissible b = true)
+    (h : a.trees = b.trees) : loadRef (render a) = loadRef (render b) := by
+  rw [loadRef_render, loadRef_render, loadChars_admissible a ha, loadChars_admissible b hb, h]
+
+/-- The flow / double-quoted layer under every line-break convention (kept: the statement the first
+round delivered). -/
 theorem json_yaml_same_tree_partial (n : PNode) (g : Nat) (b : Break) (h : n.l1 = true) :
     loadRef (render { l1Stream n g with br := b }) = .ok [n.tree] := by
   rw [loadRef_render]; exact loadChars_l1_breaks n h g b
